@@ -61,7 +61,8 @@ def run(module, cfg=None, env=None, workers=1, coverage=False, simulate=None, de
     res = TLCResult()
     meta = scratch_dir("tlc-meta-")
     cfg = cfg or (module + ".cfg")
-    cmd = ["java", "-XX:+UseParallelGC", "-Xmx" + heap, "-Xss64m"]
+    # TLC leaves an empty tlc-<number> directory in java.io.tmpdir per run: keep it inside the scratch directory removed below
+    cmd = ["java", "-XX:+UseParallelGC", "-Xmx" + heap, "-Xss64m", "-Djava.io.tmpdir=" + meta]
     if deque:
         cmd.append("-Dtlc2.tool.queue.IStateQueue=StateDeque")
     cmd += ["-cp", JAR, "tlc2.TLC", "-workers", str(workers), "-metadir", meta,
